@@ -753,3 +753,24 @@ PROPS['C14']['stages'].append(
           needs_min={'decodes_judged': 20000}, timeout={'thorough': 3600}))
 PROPS['C14']['rule'] += (' memcheck (thorough): 24000 of the same fuzz cases under valgrind memcheck on a non-ASan build '
                          '(use of uninitialised values in the decoder and helper functions).')
+
+
+# ---- level texts brought up to date with the stages added later
+PROPS['C01']['level_text'] += (' Under engine E2 the same scheduler runs with interrupt handlers injected before every '
+                               'instrumented memory access (single, nested pairs, random) and with free-running sender '
+                               'coroutines; an arrival-order oracle checks that non-overlapping requests for different '
+                               'fibres are served in the order they arrived and that none is lost.')
+PROPS['C01']['technique'] = ('runtime monitoring: lock-step reference scheduler model over generated and enumerated '
+                             'histories (ASan+UBSan); interrupt-injection sweeps and coroutine schedules through '
+                             'compiler-instrumented schedule points with an arrival-order oracle')
+PROPS['C06']['level_text'] += (' Further stages: console_putchar from injected interrupts and from a free-running input '
+                               'coroutine (every completed line dispatched exactly once), free-running sender coroutines, '
+                               'and real nested POSIX timer signals interrupting the scheduler thread under ASan+UBSan.')
+PROPS['C06']['technique'] += '; real nested signals (E4); real threads under ASan (thorough)'
+PROPS['C15']['level_text'] += (' console_putchar is additionally driven from injected interrupts at every schedule point of '
+                               'a three-pass window and from a free-running input coroutine (engine E2).')
+PROPS['C15']['engine'] = 'E1+E2'
+PROPS['C05']['level_text'] += (' The thorough tier also pushes 2^32+4096 bytes through small non-power-of-two rings.')
+PROPS['C14']['level_text'] += (' The thorough tier repeats 24000 cases under valgrind memcheck on a non-ASan build.')
+PROPS['C07']['level_text'] += (' The same rounds also run over the fallback atomics of include/librfn/atomic.h '
+                               '(-D__STDC_NO_ATOMICS__).')
